@@ -410,6 +410,21 @@ def predict(cfg, rng, q=None, thorough=False, sub=None, stats=None):
 
     def bad(key, what, **kw):
         out.append(dict(key=key, what=what, cfg=jsonable(cfg), sub=sub, thorough=bool(thorough), **kw))
+    # the object's periodic interpolants pass through the grid data they are built from (node values), on and beyond the first field period
+    pairs = (('R0_func', q.R0), ('Z0_func', q.Z0), ('normal_R_spline', q.normal_cylindrical[:, 0]), ('normal_phi_spline', q.normal_cylindrical[:, 1]),
+             ('normal_z_spline', q.normal_cylindrical[:, 2]), ('binormal_R_spline', q.binormal_cylindrical[:, 0]), ('binormal_phi_spline', q.binormal_cylindrical[:, 1]),
+             ('binormal_z_spline', q.binormal_cylindrical[:, 2]), ('tangent_R_spline', q.tangent_cylindrical[:, 0]), ('tangent_phi_spline', q.tangent_cylindrical[:, 1]),
+             ('tangent_z_spline', q.tangent_cylindrical[:, 2]), ('nu_spline', q.varphi - q.phi))
+    for nm, data in pairs:
+        f = getattr(q, nm, None)
+        if f is None:
+            continue
+        n += 1
+        for shift in (0.0, 2 * np.pi / q.nfp):
+            e = float(np.max(np.abs(np.asarray(f(q.phi + shift), dtype=float) - data)))
+            if e > 1e-11 * max(1.0, float(np.max(np.abs(data)))):
+                bad('spline:nodes:' + nm, '%s does not pass through its grid data (%.3g, evaluated %s)' % (nm, e, 'on the first period' if shift == 0 else 'one period later'))
+                break
     rmax = r_range(q)
     r = round_sig(rmax * rnd(r2, 0.1, 1.0), 4)
     ntheta = int(r2.integers(4, 12))
